@@ -233,7 +233,14 @@ def feature_matrix_spec():
                                   {"name": "ratios", "in": "query", "style": "pipeDelimited", "schema": {"type": "array", "items": {"type": "number"}}},
                                   {"name": "sort", "in": "query", "schema": {"type": "string", "enum": ["asc", "desc"]}},
                                   {"name": "X-Trace", "in": "header", "required": True, "schema": {"type": "string"}},
-                                  {"name": "X-Ids", "in": "header", "schema": {"type": "array", "items": {"type": "integer"}}}],
+                                  {"name": "X-Ids", "in": "header", "schema": {"type": "array", "items": {"type": "integer"}}},
+                                  # required and optional parameters that carry a default / const / single-value enum
+                                  {"name": "X-Ver", "in": "header", "required": True, "schema": {"type": "string", "const": "v1"}},
+                                  {"name": "X-Mode", "in": "header", "required": True, "schema": {"type": "string", "default": "fast"}},
+                                  {"name": "X-Level", "in": "header", "schema": {"type": "integer", "default": 3}},
+                                  {"name": "X-Count", "in": "header", "required": True, "schema": {"type": "integer", "default": 1}},
+                                  {"name": "api-version", "in": "query", "required": True, "schema": {"type": "string", "enum": ["2024-01"]}},
+                                  {"name": "page", "in": "query", "required": True, "schema": {"type": "integer", "default": 1}}],
                                   "responses": {"200": {"description": "ok", "content": {"application/octet-stream": {"schema": {"type": "string", "format": "binary"}}}},
                                                 "404": {"description": "nf"}}}}
     # one-directional usage reaching a type only through containers (map values, arrays, optional, nested maps)
